@@ -219,6 +219,15 @@ def generic(run, h, rng, proc):
             a_v = np.atleast_2d(proc([rec_v], mkst(kind, method)).amplitude)[0]
             if not np.array_equal(a_all, base):
                 run.violation(f"scale-all:{label}", f"{label} with {op}: multiplying all three components by 2^{k} changes the curve", rep)
+            # "any amplitude scale": ambient noise in m/s is of the order 1e-9 .. 1e-12, raw counts 1e6 .. 1e9; a power of two commutes
+            # with every floating-point operation of the pipeline, so the curve must be bit-identical
+            for kx in (-40, 33):
+                fx = 2.0 ** kx
+                rec_x = h.SeismicRecording3C(ts(x[0] * fx, dt), ts(x[1] * fx, dt), ts(x[2] * fx, dt))
+                a_x = np.atleast_2d(proc([rec_x], mkst(kind, method)).amplitude)[0]
+                if not np.array_equal(a_x, base):
+                    run.violation(f"scale-all:{label}", f"{label} with {op}: multiplying all three components by 2^{kx} (~{fx:.1e}) changes the curve "
+                                  f"(max rel diff {np.max(np.abs(a_x - base) / np.abs(base)):.2e})", rep)
             if not np.array_equal(a_h, base * f):
                 run.violation(f"scale-horizontals:{label}", f"{label} with {op}: multiplying the horizontals by 2^{k} does not multiply the curve by 2^{k}", rep)
             if not np.array_equal(a_v, base / f):
